@@ -103,6 +103,19 @@ class StmtMixin:
                 raise Unsupported("bare raise outside handler")
             return [Out("exc", st, st.exc_ctx)]
 
+        # exception messages are dropped (DESIGN 3.3): the arguments of an exception constructor
+        # are not evaluated, only the class and the fact of raising are tracked
+        if isinstance(s.exc, ast.Call):
+            fv = None
+            try:
+                fv = self.ev(st, s.exc.func, lambda s2, v: [Out("ok", s2, v)])[0].val
+            except Unsupported:
+                fv = None
+            if isinstance(fv, VPy) and fv.what == "excclass":
+                return [Out("exc", st, VExc(fv.obj, [], f"raise at line {s.lineno}"))]
+            if isinstance(fv, VPy) and fv.what == "class" and any(self._is_exc_class(c) for c in fv.obj.mro()):
+                return [Out("exc", st, VExc(fv.obj.name, [], f"raise at line {s.lineno}"))]
+
         def got(s2, v):
             origin = f"raise at line {s.lineno}"
             if isinstance(v, VExc):
